@@ -44,6 +44,7 @@ type FuncSpec struct {
 	Line       int
 	Requires   []*Clause
 	Captured   []*Clause // subset of Requires: proved at the closure's creation sites
+	Never      []*Clause // labels that must not be logged on any feasible path (Text = label)
 	Ensures    []*Clause
 	Relational []*Clause
 	Modifies   []*CExpr
@@ -138,7 +139,7 @@ var headWords = map[string]bool{
 	"modifies": true, "panics": true, "decreases": true, "pure": true, "log": true, "logs": true, "loop": true,
 	"invariant": true, "trusted": true, "source": true, "nobody": true, "lock": true, "shared": true,
 	"ghost": true, "chan": true, "chanmsg": true, "params": true, "creates": true, "consumes": true, "havoc": true, "assert": true,
-	"holds": true, "waitset": true, "immutable": true, "tracks": true, "ptriface": true, "nonnil": true, "nonnil-stored": true, "preserves": true, "each": true, "entry": true, "exit": true, "wraparound": true,
+	"holds": true, "waitset": true, "immutable": true, "tracks": true, "ptriface": true, "nonnil": true, "nonnil-stored": true, "preserves": true, "each": true, "entry": true, "exit": true, "wraparound": true, "never": true,
 }
 
 type rawLine struct {
@@ -486,6 +487,18 @@ func (cs *Contracts) LoadContractFile(path, pkgPath string, pkgImports map[strin
 		case "wraparound":
 			if curF != nil {
 				curF.WrapSigned = true
+			}
+		case "never":
+			// never[TAGS] L1, L2: no feasible path of the function — through a loop body or not —
+			// logs a call / channel operation labelled L (ensures clauses only see the events of
+			// the last iteration on their path)
+			if curF != nil {
+				tags, text := splitTags(rest)
+				for _, l := range strings.Split(text, ",") {
+					if l = strings.TrimSpace(l); l != "" {
+						curF.Never = append(curF.Never, &Clause{Kind: "never", Tags: tags, Text: l, File: ctx.File, Line: c.line, Ctx: ctx})
+					}
+				}
 			}
 		case "pure":
 			if curF != nil {
